@@ -2101,6 +2101,41 @@ def snan_probe(chk):
                      chk.replay_of(case, {"serialized": rt["ser_o"], "after_roundtrip": rt.get("ser_rt"), "ufb": rt.get("ufb_m")}))
 
 
+def pickle_filter_tie(ctx, drv, ns, limit):
+    """filter_pickle of the tree under check, executed in this process on the PyDSDL models of a namespace: the emitted
+    text must be adjacent string literals that the model's `segments 100` predicts from their concatenation, and
+    pickle.loads(gzip.decompress(b85decode(.))) of the concatenation must describe the same model (the codec law)."""
+    import ast
+    import base64
+    import gzip
+    import pickle
+    from nunavut.lang.py import filter_pickle
+    models = []
+    for m in ns.composites:
+        models += [m.request_type, m.response_type, m] if hasattr(m, "request_type") else [m]
+    for m in models[:limit]:
+        text = filter_pickle(m)
+        ctx.case(("filter_pickle", str(m)), True)
+        ctx.count("filter-pickle-blobs")
+        try:
+            lits = [ast.literal_eval(l) for l in text.split("\n")]
+            whole = ast.literal_eval("(" + text + ")")
+            back = pickle.loads(gzip.decompress(base64.b85decode(whole)))
+            ok = isinstance(whole, str) and "".join(lits) == whole and describe_model(back) == describe_model(m)
+        except Exception as e:  # noqa
+            lits, whole, ok = [], "", False
+            ctx.count("filter-pickle-error:" + type(e).__name__)
+        if not ok:
+            ctx.fail({"kind": "model-mismatch", "where": "filter_pickle"}, f"_restore_constant_(filter_pickle(m)) does not describe m for {m}",
+                     {"namespace": ns.label, "files": ns.texts, "case": {"k": "pickle", "type": str(m)}, "text": text[:300]})
+            continue
+        if drv is not None and whole and " " not in whole:
+            ans = drv.ask([f"segments 100 {whole}"], timeout=300)[0]
+            ctx.traces += 1
+            if ans.split() != lits:
+                ctx.disagree("segments", {"namespace": ns.label, "type": str(m), "text": whole[:300]}, ans[:300], [x[:40] for x in lits][:6])
+
+
 def run(ctx):
     # C18_* theorems of the Python refinement layer (decoded values pass the generated setters / fit their dtype)
     _refine = ["C01RefinePy"] if (common.LEAN / "NunavutVerif" / "Properties" / "C01RefinePy.lean").exists() else []
@@ -2153,6 +2188,8 @@ def run(ctx):
         if not ns.gen_error and not getattr(chk, "dead", False):
             snan_probe(chk)
         ctx.extra["namespaces"].append({"label": label, "classes": len(ns.schema.classes), "files": len(files), "full_candidate_lists": full})
+        if label in ("base", "regen", "rand0"):
+            pickle_filter_tie(ctx, drv, ns, 12 if ctx.quick else 60)
         if label == "base":
             c = ns.schema.classes[ns.schema.ids[("c18.U", 1, 0)]]
             ctx.sample({"class": c["full"], "type": ns.schema.ctokens(c["id"])})
